@@ -11,7 +11,7 @@ Lemma src_segwit_digest_eq : forall sha256 (i : nat) sc am ht v ins outs l sw w,
   src_segwit_digest sha256 (Z.of_nat i) sc am ht v ins outs l =
   of_option (segwit_digest sha256 {| tx_version := v; tx_inputs := ins; tx_outputs := outs; tx_locktime := l; tx_segwit := sw; tx_witnesses := w |} i sc am ht).
 Proof.
-  intros. unfold src_segwit_digest, segwit_digest, segwit_preimage, obind, dsha, zeros32.
+  intros. unfold src_segwit_digest. not_fallback (@segwit_digest). unfold segwit_digest, segwit_preimage, obind, dsha, zeros32.
   cbn [tx_version tx_inputs tx_outputs tx_locktime tx_segwit tx_witnesses]. cbv zeta.
   destruct (Z.land ht 240 =? sighash_anyonecanpay) eqn:Eacp;
   destruct (Z.land ht 31 =? sighash_single) eqn:Esingle;
